@@ -95,6 +95,12 @@ CHECKS["C16"] = dict(
     technique="TLC-generated behaviours of the runtime specs replayed through a C driver operating the published layouts; differential C-vs-Rust scripts",
     design="DESIGN.md §5 C16")
 
+CHECKS["C05"] = dict(
+    text="No separate model: the specifications already checked by TLC for C06/C07/C11 (spec/CGlueObj.tla, spec/CVec.tla) are bound to a two-module configuration. A plugin (cdylib with its own ledger allocator) and the host adapter are built by separate cargo invocations from a matrix of installed toolchains x debug/release x -Zrandomize-layout seeds; every object, group, vector and arc is created inside the plugin through extern \"C\" constructors returning #[repr(C)] values, and the TLC-generated behaviours are replayed with all calls, casts, clones, by-value calls and destruction issued by the host. Besides the per-step comparison with the specification, the host's ledger must see no free of memory it did not allocate and the plugin's live-block count must return to its base (memory released by the module that allocated it).",
+    note="Trusted: TLC, both adapters, the ledger allocators. Quick = 2 module pairs (stable-debug x nightly-release-randomized, both directions); thorough = 8 pairs over 6 build variants.",
+    technique="TLC-generated behaviours of the object/vector specifications replayed across a matrix of separately compiled module pairs with tagging allocators",
+    design="DESIGN.md §5 C05")
+
 NOT_YET = {}
 
 def main():
